@@ -529,12 +529,10 @@ def scenario_oracle(ctx, sc, trace, engine):
                     dict(rep, theorem='C20_due_once_refuted'))
 
 
-def replay(ctx):
+def replay(ctx, rp):
     '''./check C20 --replay F : re-execute the recorded case on the real code and
     evaluate the oracle on it.  Returns False when the file names a proof or
     correspondence obligation (then the full check runs).'''
-    import json
-    rp = json.load(open(ctx.replay))
     if 'spec' in rp and 'now' in rp:
         out = ctx.harness('drive_delay.py', {
             'specs': [rp['spec']], 'sweep': {'instants': [rp['now']], 'specs': [0]}})
@@ -542,6 +540,16 @@ def replay(ctx):
         ctx.log('replay: _delay(%s) at %s -> %r' % (rp['spec'], rp['now'], got))
         if 'boot' not in rp['spec']:
             classify_delay(ctx, rp['spec'], rp['now'], got)
+    elif 'spec' in rp and 'boot' in rp['spec']:
+        inst = [[2026, 3, 2, 0, 0, 0, 0], [2026, 3, 2, 0, 0, 1, 0], [2026, 3, 9, 0, 0, 0, 0]]
+        out = ctx.harness('drive_delay.py', {'specs': [rp['spec']], 'boot': [[0, inst]]})
+        seq = out['boot'][0]
+        ctx.log('replay: boot event evaluated three times -> %s' % seq)
+        if seq != [[0, 1], ['NotKnowable', 1], ['NotKnowable', 1]]:
+            ctx.violation('boot-refires', {'spec': 'boot'},
+                          'boot event %s evaluated three times gave %s' % (rp['spec'], seq),
+                          {'source': 'oracle', 'spec': rp['spec'], 'observed': seq,
+                           'theorem': 'C20_boot'})
     elif 'scenario' in rp:
         sc = rp['scenario']
         out = ctx.harness('drive_delay.py', {
@@ -552,22 +560,22 @@ def replay(ctx):
             ctx.log('replay: %s -> que=%s exc=%s' % (st, snap['que'], snap['exc']))
         scenario_oracle(ctx, sc, out['scenarios'][0], out['engine'])
     else:
-        return False
+        # the file names a proof / correspondence obligation: the full check
+        return run(ctx)
     ctx.level = 'other'   # a replay is not a proof run; the next normal run rewrites the evidence
     ctx.note('replay', ctx.replay)
     ctx.count(evaluations=1, nontrivial_keys=[('replay', 1), ('replay', 2)])
-    return True
 
 
 # ---------------------------------------------------------------------------
 def run(ctx):
-    if ctx.replay and replay(ctx):
-        return
     ctx.cov['rule'] = (
-        '_delay: (clock instant: first/last two days of every month 2023-2032, a '
-        'full week, leap/century/range edges; 2 (quick) or 6 (thorough) times of '
-        'day incl. microseconds) x (dow 0..6, dom 1..31, 4 dates, boot) x 5 times '
-        'of day, exact comparison in microseconds; non-trivial = instant within 1 '
+        '_delay: (clock instant: first/last two days of every month of 5 years '
+        '(quick) / first, 15th, 28th and last two days of every month 2023-2032 '
+        '(thorough), a full week, leap/century/range edges; 2 (quick) or 4 '
+        '(thorough) times of day incl. microseconds) x (dow 0..6, dom 1..31, 4 '
+        'dates, boot) x 5 times of day (quick: the model sees dom at 2 times of '
+        'day, the oracle all), exact comparison in microseconds; non-trivial = instant within 1 '
         'day of a month end, or dom > 28, or weekday == today.  defer/dispatch/'
         'complete: directed scenarios (re-fire, armed timer, paused, dom-31 abort, '
         'double queue) + seeded random scenarios; thorough adds an hourly sweep '
